@@ -21,7 +21,12 @@ static void assume_state(const uint64_t* rec, const uint64_t* dfs)
 void fsv_harness(void)
 {
   uint64_t bl[N + 1], nbl = 0, basins[N], outlets[N], noutlets = 0, pits[N], npits = 0;
+#ifdef REC
+  /* concrete structure per query (enumerated by the runner); the mask stays symbolic */
+  { static const uint64_t r_[N] = REC; static const uint64_t d_[N] = DFS; for (int i = 0; i < N; i++) { in_rec[i] = r_[i]; in_dfs[i] = d_[i]; } }
+#else
   FSV_IN_U64(in_rec, N, 0, N - 1); FSV_IN_U64(in_dfs, N, 0, N - 1);
+#endif
   assume_state(in_rec, in_dfs);
 #if USE_MASK
   FSV_IN_U8(in_mask, N, 0, 1);
@@ -29,7 +34,11 @@ void fsv_harness(void)
   for (int i = 0; i < N; i++) in_mask[i] = 0;
 #endif
 #if ROUNDS == 2
+#ifdef REC0
+  { static const uint64_t r_[N] = REC0; static const uint64_t d_[N] = DFS0; for (int i = 0; i < N; i++) { in_rec0[i] = r_[i]; in_dfs0[i] = d_[i]; } }
+#else
   FSV_IN_U64(in_rec0, N, 0, N - 1); FSV_IN_U64(in_dfs0, N, 0, N - 1);
+#endif
   assume_state(in_rec0, in_dfs0);
 #if USE_MASK
   FSV_IN_U8(in_mask0, N, 0, 1);
